@@ -117,6 +117,9 @@ def run(rep, tier, rng):
         g = c07.CtxGen(rr, ops=ctx_mem_ops, always_return_clean=True)
         adv = [gen_exec.val(rr) for _ in range(64)]
         cases.append(gen_exec.case_line(2**32 - 1, gen_exec.gen_stack(rr), adv, g.program()))
+    # spans whose cycle count is around 2^k - 1: no room for a HALT row before the random row
+    for k in list(range(56, 64)) + list(range(118, 126)):
+        cases.append(gen_exec.case_line(2**32 - 1, [1, 2, 3], [], "T 0 " + gen_exec.span(["noop"] * k)))
     # expected-cycles hints and challenge seeds
     full = []
     for i, c in enumerate(cases):
@@ -125,6 +128,7 @@ def run(rep, tier, rng):
         full.append("%s,%d |%s | %d" % (head.strip(), hint, rest, 1000 + i))
     out = common.run_impl("airfull", full, tag="c03")
     base_len = common.run_impl("airfull", ["%s |%s | 7" % (c.split("|", 1)[0].strip(), c.split("|", 1)[1]) for c in cases[:40]], tag="c03b")
+    lens = []
     for c, x in zip(full, out):
         if not x.startswith("OK"):
             dist["exec:" + " ".join(x.split()[:2])] += 1
@@ -136,14 +140,7 @@ def run(rep, tier, rng):
         dist["traces"] += 1
         dist["len=%s" % f["len"]] += 1
         L, clk, rg, ch = int(f["len"]), int(f["clk"]), int(f["range"]), int(f["chiplets"])
-        need = max(clk, rg, ch) + 1
-        want = 1
-        while want < need:
-            want *= 2
-        if L != want:
-            rep.violation("trace length %d is not next_power_of_two(max(clk=%d, range=%d, chiplets=%d) + 1) = %d" % (L, clk, rg, ch, want),
-                          {"kind": "search", "family": "airfull", "case": c, "impl": x})
-            found = True
+        lens.append((c, x, L, clk, rg, ch))
         for key, what in (("main_bad", "a main transition constraint"), ("assert_bad", "a boundary assertion"),
                           ("aux_bad", "the auxiliary transition constraint"), ("auxassert_bad", "an auxiliary boundary assertion")):
             if f[key] != "0":
@@ -151,6 +148,13 @@ def run(rep, tier, rng):
                               {"kind": "search", "family": "airfull", "case": c, "impl": x, "which": key, "first": f["first"]})
                 found = True
     # the trace length does not depend on the hint
+    # the length against the Coq definition Vm/TraceLen.trace_len (extracted), also for sizes no program here reaches
+    want = common.run_model("params", ["tlen %d %d %d" % (clk, rg, ch) for _, _, _, clk, rg, ch in lens], tag="c03l")
+    for (c, x, L, clk, rg, ch), y in zip(lens, want):
+        if y != "OK len=%d" % L:
+            rep.violation("trace length %d of the implementation, model: %s (clk=%d, range=%d, chiplets=%d)" % (L, y, clk, rg, ch),
+                          {"kind": "correspondence", "family": "airfull", "case": c, "impl": x, "model": y})
+            found = True
     for c, x, y in zip(full[:40], out[:40], base_len):
         if x.startswith("OK") and y.startswith("OK") and x.split()[1:5] != y.split()[1:5]:
             rep.violation("trace length depends on the expected-cycles hint", {"kind": "search", "family": "airfull", "case": c, "impl": x, "baseline": y})
